@@ -162,7 +162,9 @@ pub fn random_main(args: &Args) -> i32 {
                             let st = c.to_string();
                             (f != "arch" || (*c != ';')) && ref_encode(cp, &st).map(|b| b != b"?").unwrap_or(false)
                         }).collect();
-                        let len = 1 + rng.below(9);
+                        // one run in twelve carries long texts: the stream then spans several sectors and read
+                        // buffers (8 KiB windows in the container layer), with strings lying across their ends
+                        let len = if run % 12 == 5 && f != "arch" { *rng.pick(&[2000u64, 4090, 5000, 8180, 9000]) + rng.below(8) } else { 1 + rng.below(9) };
                         let sv: String = (0..len).map(|_| *rng.pick(&rep)).collect();
                         json!({"op":"Set","args":{"field":f,"value":{"s": crate::j::cps(&sv)}}})
                     }
